@@ -85,14 +85,22 @@ Qed.
 (* ---------------------------------------------------------------------------------------------------------- *)
 (* /devices: entries as GET answers them for disabled devices *)
 
+Lemma add_slaves_sticky : forall doc acc i x devs err, add_slaves acc doc i (Some x) = (devs, err) -> err = Some x.
+Proof.
+  induction doc as [|e r IH]; intros acc i x devs err; cbn [add_slaves]. { intros H; inversion H; reflexivity. }
+  destruct (existsb (same_endpoint e) acc); [apply IH|].
+  destruct (truthy (get "poll_interval" e) && truthy (get "listen_enabled" e)); [apply IH|].
+  destruct (is_null (get "admin_password" e) && is_null (get "admin_password_hash" e)); apply IH.
+Qed.
+
 Lemma add_slaves_ok : forall doc acc i devs,
-  add_slaves acc doc i = (devs, None) -> devs = acc ++ map slave_json doc.
+  add_slaves acc doc i None = (devs, None) -> devs = acc ++ map slave_json doc.
 Proof.
   induction doc as [|e r IH]; intros acc i devs; cbn [add_slaves map].
   - intros H; inversion H. now rewrite app_nil_r.
-  - destruct (existsb (same_endpoint e) acc); [discriminate|].
-    destruct (truthy (get "poll_interval" e) && truthy (get "listen_enabled" e)); [discriminate|].
-    destruct (is_null (get "admin_password" e) && is_null (get "admin_password_hash" e)); [discriminate|].
+  - destruct (existsb (same_endpoint e) acc). { intros H. apply add_slaves_sticky in H. discriminate. }
+    destruct (truthy (get "poll_interval" e) && truthy (get "listen_enabled" e)). { intros H. apply add_slaves_sticky in H. discriminate. }
+    destruct (is_null (get "admin_password" e) && is_null (get "admin_password_hash" e)). { intros H. apply add_slaves_sticky in H. discriminate. }
     intros H. apply IH in H. now rewrite H, <- app_assoc.
 Qed.
 
@@ -103,7 +111,7 @@ Theorem slaves_roundtrip : forall s1 s2 s2',
 Proof.
   intros s1 s2 s2' FIX. unfold put_slave_devices, get_slave_devices.
   destruct (first_invalid_slave (sl_devices s1) 0) as [[[i c] f]|]. { intros H; inversion H. }
-  destruct (add_slaves [] (sl_devices s1) 0) as [devs er] eqn:A. intros H; inversion H; subst; clear H.
+  destruct (add_slaves [] (sl_devices s1) 0 None) as [devs er] eqn:A. intros H; inversion H; subst; clear H.
   apply add_slaves_ok in A. subst devs. cbn. split; [|auto].
   induction (sl_devices s1) as [|e r IH]; cbn; [reflexivity|]. rewrite FIX by now left. f_equal. apply IH.
   intros e' I. apply FIX. now right.
@@ -113,7 +121,7 @@ Theorem slaves_flags_restored : forall doc s s' err,
   put_slave_devices doc s = (s', err) -> sl_updating s' = true /\ sl_events s' = true.
 Proof.
   intros doc s s' err. unfold put_slave_devices.
-  destruct (first_invalid_slave doc 0) as [[[i c] f]|]; [|destruct (add_slaves [] doc 0)]; intros H; inversion H; subst; cbn; auto.
+  destruct (first_invalid_slave doc 0) as [[[i c] f]|]; [|destruct (add_slaves [] doc 0 None)]; intros H; inversion H; subst; cbn; auto.
 Qed.
 
 (* ---------------------------------------------------------------------------------------------------------- *)
@@ -141,7 +149,8 @@ Theorem peripherals_roundtrip : forall known auto st dyn ps2 ps2',
   put_peripherals known auto (get_peripherals (st ++ dyn)) ps2 = (ps2', None) ->
   get_peripherals ps2' = get_peripherals (st ++ dyn).
 Proof.
-  intros known auto st dyn ps2 ps2' ST DY F. unfold put_peripherals, get_peripherals. intros H.
+  intros known auto st dyn ps2 ps2' ST DY F. unfold put_peripherals, get_peripherals.
+  destruct (first_some invalid_peripheral (st ++ dyn)); [discriminate|]. intros H.
   apply add_peripherals_ok in H. subst ps2'. rewrite F. f_equal.
   rewrite filter_app.
   assert (A : filter (fun e => negb (is_static e)) st = []).
